@@ -434,6 +434,87 @@ def check_highlevel_explicit(ctx, model, cov):
             cov.add({"site": "TupimageTerminal(num_tmux_layers=n)", "tmux_program": c[0], "layers": c[1], "TMUX": c[2], "raises": res[1]}, klass=f"highlevel-explicit/{c[0]}/raises")
 
 
+def check_highlevel_setter(ctx, model, cov):
+    """`t.num_tmux_layers = n` on a live TupimageTerminal whose wrapping count and configuration have come apart before the
+    assignment — the GraphicsTerminal was changed directly (attribute, detect_tmux), or the configuration object is shared
+    with another terminal that was assigned to: afterwards the terminal reports n and wraps n times, also when n is what
+    the configuration already said."""
+    work = ctx.work
+    rng = ctx.rng
+    plan = []
+    for _ in range(ctx.pick(40, 300)):
+        plan.append({"a": rng.randrange(0, 4), "how": rng.choice(["term-attribute", "shared-config", "detect"]), "b": rng.randrange(0, 4), "n": rng.randrange(0, 4)})
+    for a in range(4):                       # the assignment repeats the configured value
+        for b in range(4):
+            plan.append({"a": a, "how": "term-attribute", "b": b, "n": a})
+            plan.append({"a": a, "how": "shared-config", "b": b, "n": b})
+
+    def child():
+        common.scrub_process_env()
+        os.environ["HOME"] = work
+        os.environ["XDG_STATE_HOME"] = os.path.join(work, "state")
+        os.environ["XDG_CONFIG_HOME"] = os.path.join(work, "config")
+        import tupimage
+        gc = tupimage.graphics_command
+        tty_in = open("/dev/tty", "rb", buffering=0)
+        bindir = os.path.join(work, "bin-hls")
+        os.makedirs(bindir, exist_ok=True)
+        with open(os.path.join(bindir, "tmux"), "w") as f:
+            f.write("#!/bin/sh\necho 'fake-term||||77||||88_sess'\n")
+        os.chmod(os.path.join(bindir, "tmux"), 0o755)
+        os.environ["PATH"] = bindir + ":" + os.environ.get("PATH", "")
+        res = []
+        for k, c in enumerate(plan):
+            out = common.RecStream()
+
+            def mk(o, **kw):
+                return tupimage.TupimageTerminal(out_command=o, out_display=common.RecStream(), in_response=tty_in, id_database=os.path.join(work, "hls.db"),
+                                                 redetect_terminal=False, **kw)
+            try:
+                if c["how"] == "shared-config":
+                    cfg = tupimage.TupimageConfig()
+                    cfg.override_from_dict({"num_tmux_layers": c["a"]})
+                    first = mk(common.RecStream(), config=cfg)
+                    t = mk(out, config=cfg)
+                    first.num_tmux_layers = c["b"]
+                else:
+                    t = mk(out, config="DEFAULT", num_tmux_layers=c["a"])
+                    if c["how"] == "term-attribute":
+                        t.term.num_tmux_layers = c["b"]
+                    else:
+                        os.environ["TMUX"] = "/tmp/tmux-1/default,1,0" if c["b"] % 2 else ""
+                        os.environ["TERM"] = "screen-256color"
+                        t.term.detect_tmux()
+                        os.environ.pop("TMUX", None)
+                        os.environ["TERM"] = "xterm-256color"
+                t.num_tmux_layers = c["n"]
+                t.term.send_command(gc.DeleteCommand(image_id=5, what=gc.WhatToDelete.IMAGE_OR_PLACEMENT_BY_ID))
+                res.append(["OK", t.num_tmux_layers, b"".join(bytes(w) for w in out.writes).hex()])
+            except Exception as e:  # noqa
+                res.append(["EXC", type(e).__name__ + ": " + str(e)[:100], ""])
+        return res
+
+    r = common.in_pty(child, timeout=300)
+    if "ok" not in r:
+        ctx.corr_breaks.append({"what": "high-level setter runs failed in the pty sandbox", "error": {k: v for k, v in r.items() if k != "tty"}})
+        return
+    ok = [(c, res) for c, res in zip(plan, r["ok"]) if res[0] == "OK"]
+    reps = model.batch([f"c11.spec_unwrapn {c['n']} {res[2]}" for c, res in ok]) if ok else []
+    for (c, res), rep in zip(ok, reps):
+        cov.add(dict(c, site="TupimageTerminal.num_tmux_layers setter"), klass=f"highlevel-setter/{c['how']}")
+        inner = None if rep in ("NONE", "") else bytes.fromhex(rep)
+        if res[1] != c["n"] or inner is None or not inner.startswith(b"\x1b_G") or b"\x1bP" in inner:
+            ctx.violations.append({"signature": {"class": "configured-layers-lost", "site": "TupimageTerminal.num_tmux_layers setter", "how": c["how"]},
+                                   "what": f"terminal built with {c['a']} layer(s), then {c['how']} -> {c['b']}, then `t.num_tmux_layers = {c['n']}`: it reports {res[1]} and its command "
+                                           f"{'does not unwrap ' + str(c['n']) + ' times' if inner is None else 'unwraps to ' + repr(inner[:40])}",
+                                   "case": {"kind": "highlevel_setter", **c}})
+            break
+    for c, res in zip(plan, r["ok"]):
+        if res[0] != "OK":
+            ctx.corr_breaks.append({"what": "high-level setter scenario raised", "case": c, "error": res[1]})
+            break
+
+
 def run(ctx, model):
     cov = common.Coverage("case = (command kind, layers, content bytes) or (site, TMUX, TERM, layers); non-trivial = at least one tmux layer / TMUX set; distinct by hash of the case")
     if model is None:
@@ -445,6 +526,7 @@ def run(ctx, model):
     check_reconfiguration(ctx, model, tup, cov)
     check_detection(ctx, model, tup, cov)
     check_highlevel_explicit(ctx, model, cov)
+    check_highlevel_setter(ctx, model, cov)
     # a live TupimageTerminal whose num_tmux_layers is re-assigned: it must behave like one constructed with the new count
     import c08_cli
     c08_cli.reconfigure_equivalence(ctx, cov, ctx.pick(24, 120), must_change=["num_tmux_layers"])
